@@ -7,7 +7,7 @@ class C03(Prop):
     pid = "C03"
     lean_targets = ["M17.Props.C03"]
     theorems = ["M17.C03.gen_consts", "M17.C03.step_finv", "M17.C03.run_finv", "M17.C03.mid_step", "M17.C03.steady_next_symbol",
-                "M17.C03.frame_delivery", "M17.C03.doStreamSync_spec", "M17.C03.step_dcd_on"]
+                "M17.C03.frame_delivery", "M17.C03.doStreamSync_spec", "M17.C03.step_dcd_on", "M17.C03.coast_step", "M17.C03.coasting_bounded"]
     level_text = ("PARTIAL proof. Lean 4 theorems about the control skeleton of M17Demodulator::operator() (M17/Model/Demod.lean: the seven-state "
                   "sync/frame machine, its counters, the symbol-sampling schedule and the framer index, with every analog quantity — correlator "
                   "triggers, carrier-detect decisions, clock estimates, Viterbi cost, decoder state — an arbitrary per-sample event), for ALL event "
@@ -121,6 +121,13 @@ class C03(Prop):
                     kind = rng.random()
                     for j in range(i, min(len(s2), i + ln_)):
                         s2[j] = 0 if kind < 0.4 else (rng.randrange(-32768, 32768) if kind < 0.8 else -s2[j])
+            if trial % 4 in (1, 3):
+                # blank the sync words of a run of consecutive frames: the data still decodes, the demodulator has to coast
+                k0 = rng.randrange(16, 20); run = rng.choice([1, 2, 5, 9, 12]) if trial % 4 == 1 else 14
+                for k in range(k0, min(k0 + run, nfr)):
+                    b = (2 + k) * 1920 + 70
+                    for j in range(b, min(len(s2), b + 110)):
+                        s2[j] = 0
             pre = (prev[:rng.randrange(500, len(prev))] + [0] * rng.choice([0, 77, 4803])) if trial % 3 == 2 else []
             ln, rep, rc, err = demodlib.run_rx(ctx, demod, p, pre + s2)
             ctx.count(("trace", tuple(sorted(p.items())), trial), nontrivial=True)
